@@ -342,6 +342,9 @@ def class_cases():
     out += [("sequence", None, "UserX"), ("sequence", None, "FCNAgent"), ("sequence", None, "Market"),
             ("user", None, "UserX"), ("unknown", None, "Nope"), ("unknown_with_list", None, "Nope"),
             ("dup_user", None, "UserX"), ("clash", None, "Market")]
+    # the same through a runner: classes handed to class_register, then a configuration naming them
+    out += [("runner", None, k) for k in ("one_user_class", "two_classes_same_name", "two_classes_same_name_other_between",
+                                          "same_class_twice", "clash_with_builtin", "two_runners_same_name")]
     return out
 
 
@@ -393,6 +396,47 @@ def class_fn(case, wit):
             if find_class(name) is not builtin:
                 raise Violation("C18.class_builtin", "a public pams class name resolves to another class", name)
         wit.inc("class_resolution_sequences")
+    elif kind == "runner":
+        class _Other(Agent):
+            def submit_orders(self, markets):
+                return []
+        _Other.__name__ = "UserX"
+
+        class _Third(Agent):
+            def submit_orders(self, markets):
+                return []
+
+        def runner(classes):
+            cfg = {"simulation": {"markets": ["M"], "agents": ["A"], "sessions": [dict(BASE, sessionName=0)]},
+                   "M": {"class": "Market", "tickSize": 1.0, "marketPrice": 100.0},
+                   "A": {"class": "UserX", "numAgents": 2, "markets": ["M"], "cashAmount": 100, "assetVolume": 1}}
+            r = SequentialRunner(cfg, random.Random(1), None)
+            for c in classes:
+                r.class_register(c)
+            r._setup()
+            return r
+        if name in ("one_user_class", "two_runners_same_name"):
+            for cls in ((UserX,) if name == "one_user_class" else (UserX, _Other, UserX)):
+                r = runner([cls, _Third])
+                if not all(type(a) is cls for a in r.simulator.agents) or len(r.simulator.agents) != 2:
+                    raise Violation("C18.class_user", "a registered user class does not resolve to the class registered with THIS runner",
+                                    "registered %r, agents are %r" % (cls, [type(a) for a in r.simulator.agents]))
+            wit.inc("user_class_resolved")
+        else:
+            classes = {"two_classes_same_name": [UserX, _Other], "two_classes_same_name_other_between": [_Other, _Third, UserX],
+                       "same_class_twice": [UserX, UserX], "clash_with_builtin": [UserX, _Clash]}[name]
+            cfgcls = "Market" if name == "clash_with_builtin" else "UserX"
+            try:
+                r = runner(classes)
+            except (AttributeError, ValueError):
+                wit.inc("class_error_reported")
+                return (kind, name)
+            if name == "clash_with_builtin":
+                # nothing in this configuration names "Market" ambiguously unless the market entry does: it does
+                raise Violation("C18.class_ambiguous", "an unknown or ambiguous class name was resolved instead of reported",
+                                "a user class named Market registered next to the built-in one; the market entry resolved to %r" % type(r.simulator.markets[0]))
+            raise Violation("C18.class_ambiguous", "an unknown or ambiguous class name was resolved instead of reported",
+                            "%s: classes registered %r; the agents are %r" % (name, classes, [type(a) for a in r.simulator.agents]))
     elif kind == "user":
         if find_class("UserX", [UserX]) is not UserX:
             raise Violation("C18.class_user", "a registered user class does not resolve", "")
